@@ -1296,14 +1296,23 @@ static qtreetbl_obj_t *remove_obj(qtreetbl_t *tbl, qtreetbl_obj_t *obj,
         }
         if (cmp == 0) {
             // copy min to this then remove min
+            // the min node is going to be unlinked and freed, so hand it
+            // this node's key and data in exchange for its own ones. No
+            // memory needs to be allocated, so the removal can't fail.
             qtreetbl_obj_t *minobj = find_min(obj->right);
             assert(minobj != NULL);
-            free(obj->name);
-            free(obj->data);
-            obj->name = qmemdup(minobj->name, minobj->namesize);
+            void *tmpname = obj->name;
+            size_t tmpnamesize = obj->namesize;
+            void *tmpdata = obj->data;
+            size_t tmpdatasize = obj->datasize;
+            obj->name = minobj->name;
             obj->namesize = minobj->namesize;
-            obj->data = qmemdup(minobj->data, minobj->datasize);
+            obj->data = minobj->data;
             obj->datasize = minobj->datasize;
+            minobj->name = tmpname;
+            minobj->namesize = tmpnamesize;
+            minobj->data = tmpdata;
+            minobj->datasize = tmpdatasize;
             obj->right = remove_min(obj->right);
             tbl->num--;
         } else {
